@@ -69,7 +69,25 @@ func relayFeatures() []feature {
 	add("req-body=1", "rb", func(rc *relayCase) { rc.reqBody = "x"; needsBodyMethod(rc) })
 	add("req-body=chunked5", "rb", func(rc *relayCase) { rc.reqBody = "hello"; rc.chunkReq = true; needsBodyMethod(rc) })
 	add("req-body=70k", "rb", func(rc *relayCase) { rc.reqBody = big70k; needsBodyMethod(rc) })
-	for _, st := range []int{42, 201, 203, 204, 299, 301, 404, 418, 500, 503, 599, 999} {
+	// a GET may carry a body too; it reaches the origin like any other
+	add("req-body=on-get", "rb", func(rc *relayCase) { rc.reqBody = "x" })
+	// preconditions on requests that are not answered from the store belong to the client and the
+	// origin: a guarded write must arrive guarded
+	pre := func(name, method string, kv [2]string, body string) {
+		add("precondition="+name, "method", func(rc *relayCase) {
+			rc.method = method
+			rc.reqHdrs = append(rc.reqHdrs, kv)
+			if rc.reqBody == "" {
+				rc.reqBody = body
+			}
+		})
+	}
+	pre("put-if-match", "PUT", [2]string{"If-Match", `"v7"`}, "new state")
+	pre("put-if-none-match-star", "PUT", [2]string{"If-None-Match", "*"}, "create")
+	pre("delete-if-unmodified-since", "DELETE", [2]string{"If-Unmodified-Since", "Sun, 06 Nov 1994 08:49:37 GMT"}, "")
+	pre("post-if-match", "POST", [2]string{"If-Match", `"v7"`}, "append")
+	pre("head-if-none-match", "HEAD", [2]string{"If-None-Match", `"v7"`}, "")
+	for _, st := range []int{42, 201, 203, 204, 299, 301, 404, 416, 418, 500, 503, 599, 999} {
 		st := st
 		add("status="+strconv.Itoa(st), "status", func(rc *relayCase) {
 			rc.status = st
